@@ -265,8 +265,13 @@ class ELF(Layout):
             # a segment overlapping its predecessor / containing its successor, with different contents
             i = rng.randrange(len(segs) - 1)
             a, b = segs[i], segs[i + 1]
-            k = rng.choice(["reach", "inside"])
-            if k == "reach":
+            k = rng.choice(["reach", "inside", "tail", "tail"])
+            if k == "tail":
+                # only the zero-filled tail (memsz > filesz) of the first segment covers the second one
+                a["filesz"] = min(a["filesz"], rng.choice([PS, PS // 2, 0x10]))
+                a["memsz"] = (b["paddr"] - a["paddr"]) + b["memsz"] + rng.choice([0, PS, 0x123])
+                b["filesz"] = b["memsz"]
+            elif k == "reach":
                 b["paddr"] = a["paddr"] + max(PS, a["memsz"] // PS // 2 * PS)
                 b["memsz"] = b["filesz"] = a["memsz"] + PS
             else:
